@@ -32,6 +32,10 @@ func runC20(c *Ctx) {
 		E8, S8 := c13SharedWrites(sub, "C13.R1", "", true)
 		R.Cite(map[string]string{"C13.R4": "C20.R8"}, func() { c13MapOrder(c, E8, S8) })
 	}
+	R.Rule("C20.R10", "both passes read their input the same way (= C06.R4, cited): the tokenizer runs in its default configuration — a token-size cap (SetMaxBuf) is a limit on the input, and the first pass's output can be several times larger than its input (every quote becomes an entity), so the second pass can fail on what the first one produced")
+	if sc10 := newSC(c, "C20.R10"); sc10 != nil {
+		c06TokenizerConfig(sc10, "C20.R10", "the tokenizer is reconfigured: what it accepts or delivers on the second pass (where every escaped character is five bytes) is no longer what it accepted on the first")
+	}
 	R.Rule("C20.R9", "the shipped policies stay inside the class the property speaks of: StrictPolicy and UGCPolicy attach no value pattern to a URL attribute (href, src, cite — the documented exception being cite on del/ins) or to sandbox, and a pattern on rel, target or crossorigin accepts, with every value, also what the sanitiser makes of it (value + \" nofollow\" / \" noreferrer\" / \" noopener\"; \"_blank\"; \"anonymous\") — a pattern is judged before the rewrite, so the second pass judges the rewritten value")
 	{
 		ev9 := policyx.New(c.P)
